@@ -182,7 +182,13 @@ def run(tier):
                 if o is None:
                     continue                  # names a day the month does not have: outside zic's input language
                 zn = "U/%s@%d@%d" % (on, month, y)
-                zones_map[zn] = [{'untilYear': y, 'untilMonth': month, 'untilDayString': on, 'untilDay': None}]
+                # as in a real Zone: the era with the expression is followed by later eras (the last one without UNTIL), and in
+                # every third zone preceded by an earlier one - the verdict on one era must not be undone by its neighbours
+                final = {'untilYear': 10000, 'untilMonth': 1, 'untilDayString': '1', 'untilDay': None}
+                eras_ = [{'untilYear': y, 'untilMonth': month, 'untilDayString': on, 'untilDay': None}, final]
+                if (y + month) % 3 == 0:
+                    eras_.insert(0, {'untilYear': y - 1, 'untilMonth': 6, 'untilDayString': '15', 'untilDay': None})
+                zones_map[zn] = eras_
                 parsed[zn] = (y, month, on, o)
     t2 = tr.Transformer(dict(zones_map), {}, {}, 'extended', 2000, 2050, 60, 60, False)
     old = sys.stderr
@@ -201,7 +207,7 @@ def run(tier):
             case = {"until_year": y, "until_month": month, "until_day": on, "calendar": o.isoformat()}
             if zn in kept_z:
                 until_kept += 1
-                e = kept_z[zn][0]
+                e = [x for x in kept_z[zn] if x['untilYear'] == y][0]
                 case["resolved"] = [e['untilMonth'], e['untilDay']]
                 if o.year != y:
                     v.violation("c18:until-day-in-another-year-admitted", "a Zone UNTIL day that falls into another year was admitted instead of rejected", case)
